@@ -1,20 +1,19 @@
 CONSTANTS
   S = 3
   N = 3
-  Mode = "parts"
+  Mode = "laws"
   Kinds = {"Sum","Min","Max","TopN","Rows","GroupBy","Count","Row","Bool"}
   Lims = {1,2}
   Vals <- ValsA
-  MaxCnt = 2
+  MaxCnt = 1
   R = 2
   G = 1
   ColsPer = 1
-  Canon = FALSE
+  Canon = TRUE
   DataSrc = "free"
 INIT Init
 NEXT Next
-INVARIANT TypeOK
-INVARIANT OrderIndependent
+INVARIANT LawsHold
 INVARIANT TieCountsAdd
-VIEW MView
+INVARIANT Emit
 CHECK_DEADLOCK FALSE
